@@ -31,7 +31,8 @@ type Disk struct {
 	// TempUnavailable makes the next Snapshot() call fail once.
 	TempUnavailable bool
 
-	node *Node
+	node  *Node
+	stats *CaseStats
 }
 
 func newDisk(n *Node) *Disk {
@@ -84,6 +85,9 @@ func (d *Disk) holds(i, t uint64) bool {
 func (d *Disk) Snapshot() (*pb.Snapshot, error) {
 	if d.TempUnavailable {
 		d.TempUnavailable = false
+		if d.stats != nil {
+			d.stats.inc("snap.temporarily_unavailable")
+		}
 		return nil, raft.ErrSnapshotTemporarilyUnavailable
 	}
 	n := d.node
